@@ -240,7 +240,7 @@ def gen_composites(args) -> list:
 
                 def mk_alt():
                     std = _ZoneRecurrence(rnd.choice(pool), Offset.zero, mk_yo(), -(2**31), 2**31 - 1)
-                    dst = _ZoneRecurrence(rnd.choice(pool), Offset.from_seconds(rnd.choice([3600, 1800, 7200, -3600, 1200])), mk_yo(), -(2**31), 2**31 - 1)
+                    dst = _ZoneRecurrence(rnd.choice(pool), Offset.from_seconds(rnd.choice([3600, 1800, 7200, -3600, 1200, 0])), mk_yo(), -(2**31), 2**31 - 1)
                     return _StandardDaylightAlternatingMap._ctor(mk_off(), std, dst)
 
                 if c < 0.8:
